@@ -174,6 +174,19 @@ def predicate(prop, op, il, mres, tag):
         return ("Relic.Props.%s (jar)" % prop, mres, "implementation process died / inconsistent: " + il[:120])
     if il.startswith("panic") and not mres.startswith("panic"):
         return ("Relic.Props.%s (jar no panic)" % prop, mres, "signjar panicked: " + il[:160])
+    if f[1] == "split" and il.startswith("ok mal=0 ") and prop in ("C05", "C01"):
+        # Relic.Props.C05.jar_manifest_roundtrip / jar_sections_minimal, evaluated on what splitManifest returned:
+        # the sections concatenate to the manifest and each ends at the first separator the search finds in it
+        secs = [] if il.split(" ")[2] == "_" else [_unhex(x) for x in il.split(" ")[2].split(",")]
+        if b"".join(secs) != _unhex(f[2]):
+            return ("Relic.Props.C05.jar_manifest_roundtrip", "sections concatenate to the manifest",
+                    "splitManifest reports no malformation but its sections do not make up the manifest")
+        for sct in secs:
+            i1, i2 = sct.find(b"\r\n\r\n"), sct.find(b"\n\n")
+            end = i1 + 4 if i1 >= 0 else (i2 + 2 if i2 >= 0 else -1)
+            if end != len(sct):
+                return ("Relic.Props.C05.jar_sections_minimal", "every section ends at its first separator",
+                        "a section returned by splitManifest holds a separator before its end (or none): %r" % sct[:60])
     if f[1] == "dump" and il.startswith("ok ") and prop in ("C05", "C01"):
         d = _unhex(il.split(" ")[1])
         for line in d.split(b"\r\n"):
